@@ -199,8 +199,22 @@ def gen_newnonce(rng, quick):
                ("503-problem", dict(problem("serverInternal", 503), nonce="none"))]
     if quick:
         answers = rng.sample(answers, 2)
-    return [{"idx": 3000 + i, "class": "newNonce", "rules": [{"kind": "newNonce", "nth": rng.choice([0, 0, 1]), "answer": a, "label": l}],
-             "fault": "newNonce:" + l, "ca_opts": {"nonce_on_get": False}, "pair": False} for i, (l, a) in enumerate(answers)]
+    out = [{"idx": 3000 + i, "class": "newNonce", "rules": [{"kind": "newNonce", "nth": rng.choice([0, 0, 1]), "answer": a, "label": l}],
+            "fault": "newNonce:" + l, "ca_opts": {"nonce_on_get": False}, "pair": False} for i, (l, a) in enumerate(answers)]
+    # the fault PERSISTS (a one-shot fault is healed by any second fetch): the newNonce resource answers the same way for
+    # the whole run, or for its first k requests.  Every request is answered, so each attempt has to end (failed, one
+    # post-operation record, an error text) within the bound, and the next one starts after the pause.
+    every = [("drop", {"drop": True}), ("500", {"status": 500, "body": ""}), ("200-no-nonce", {"status": 200, "body": "", "nonce": "none"}),
+             ("200-invalid-nonce", {"status": 200, "body": "", "nonce": "invalid"}), ("503-problem", dict(problem("serverInternal", 503), nonce="none"))]
+    lasting = [every[2], rng.choice(every[:2] + every[3:])] if quick else every
+    for j, (l, a) in enumerate(lasting):
+        out.append({"idx": 3100 + j, "class": "newNonce", "rules": [{"kind": "newNonce", "from": 0, "answer": a, "label": l + "-always"}],
+                    "fault": "newNonce:%s for the whole run" % l, "ca_opts": {"nonce_on_get": False}, "pair": False})
+    for j, (l, a) in enumerate(lasting if not quick else lasting[:1]):
+        k = rng.choice([2, 3, 12])
+        out.append({"idx": 3200 + j, "class": "newNonce", "rules": [{"kind": "newNonce", "from": 0, "times": k, "answer": a, "label": "%s-x%d" % (l, k)}],
+                    "fault": "newNonce:%s for the first %d requests" % (l, k), "ca_opts": {"nonce_on_get": False}, "pair": False})
+    return out
 
 
 FEED_LINES = "first line of the hook's input\nsecond line\n"
